@@ -283,12 +283,37 @@ def run(ctx):
     ctx.rule('R9.1b', 'precedence_require_parens maps BoolOp/BinOp/UnaryOp to their op class on both sides and derives the '
                       'dict_key_None / matchas_pat_None / attr_val_int flags', 4)
     w = ctx.repo.funcs('astutil', 'precedence_require_parens')[0]
-    wt = norm(ast.unparse(w.node), 100000)
-    for frag, why in [("child.op.__class__ if (child_cls := child.__class__) in (BoolOp, BinOp, UnaryOp) else child_cls", 'child operator class'),
-                      ("parent.op.__class__ if (parent_cls := parent.__class__) in (BoolOp, BinOp, UnaryOp) else parent_cls", 'parent operator class'),
-                      ("parent.keys[idx] is None", 'dict ** flag'), ("child.pattern is None", 'MatchAs capture flag')]:
-        ctx.check('R9.1b', frag in wt, 'astutil', 'precedence_require_parens', why,
-                  f'the wrapper no longer computes `{frag}`: operator precedence / special flags are lost', w.lineno)
+    wps = [a.arg for a in w.node.args.posonlyargs + w.node.args.args]
+    if len(wps) < 2:
+        raise AnalysisError('precedence_require_parens: child / parent parameters not found')
+    p_child, p_parent = wps[0], wps[1]
+
+    def op_class_selected(pname):
+        """`<p>.op.__class__` is chosen exactly when `<p>.__class__` is one of BoolOp / BinOp / UnaryOp (conditional expression or if)."""
+        for x in ast.walk(w.node):
+            test = body = None
+            if isinstance(x, ast.IfExp):
+                test, body = x.test, [x.body]
+            elif isinstance(x, ast.If):
+                test, body = x.test, x.body
+            if test is None:
+                continue
+            picks_op = any(isinstance(y, ast.Attribute) and y.attr == '__class__' and isinstance(y.value, ast.Attribute) and y.value.attr == 'op' and
+                           norm(y.value.value) == pname for b_ in body for y in ast.walk(b_))
+            asks_cls = any(isinstance(y, ast.Attribute) and y.attr == '__class__' and norm(y.value) == pname for y in ast.walk(test))
+            if picks_op and asks_cls and T.classes_mentioned(ctx, 'astutil', test) == {'BoolOp', 'BinOp', 'UnaryOp'}:
+                return True
+        return False
+
+    def is_none_test(pred):
+        return any(isinstance(x, ast.Compare) and len(x.ops) == 1 and isinstance(x.ops[0], (ast.Is, ast.IsNot)) and
+                   isinstance(x.comparators[0], ast.Constant) and x.comparators[0].value is None and pred(x.left) for x in ast.walk(w.node))
+    for ok, why in [(op_class_selected(p_child), 'child operator class'), (op_class_selected(p_parent), 'parent operator class'),
+                    (is_none_test(lambda l: isinstance(l, ast.Subscript) and isinstance(l.value, ast.Attribute) and l.value.attr == 'keys' and
+                                  norm(l.value.value) == p_parent), 'dict ** flag'),
+                    (is_none_test(lambda l: isinstance(l, ast.Attribute) and l.attr == 'pattern' and norm(l.value) == p_child), 'MatchAs capture flag')]:
+        ctx.check('R9.1b', ok, 'astutil', 'precedence_require_parens', why,
+                  f'the wrapper no longer derives the {why}: operator precedence / special flags are lost', w.lineno)
 
     check_use(ctx, F)
 
